@@ -15,7 +15,7 @@ SPEC = dict(
     technique="deterministic simulation: seeded lock/channel-level scheduler over instrumented connmgr, reference model + trim oracles",
     design_ref="DESIGN.md section 5 (C14)",
     quick_s=40, thorough_s=400,
-    rule=("one run = one tape: stratum drawn first (sequential 3 : concurrent 2); configuration low 1-4, high low..low+4, grace "
+    rule=("one run = one tape: stratum drawn first (sequential 3 : concurrent 2), then the fault stratum (clock jumps in one run of three: the injected clock's Now() jumps forward by 1 s / 30 s / grace-1 s / grace+1 s / 10 min / 3 h at drawn points while timers and tickers stay on bubble time; all time-dependent oracles are in wall time); configuration low 1-4, high low..low+4, grace "
           "0/10s/20s/1min, silence 5/10/30s, decayer resolution 10s/30s/1min, 2-8 peers over 1-3 manager segments, 0-2 decaying "
           "tags whose decay/bump functions are the exported presets (DecayFixed, DecayLinear, DecayNone, DecayExpireWhenInactive, BumpSumUnbounded/Bounded, BumpOverwrite) or harness ones, several of which remove a tag while returning a non-zero value; bump deltas -2..6; sequential: 20-80 operations (Connected incl. several per peer and duplicates, "
           "Disconnected incl. duplicates and never-connected, TagPeer/UntagPeer/UpsertTag, Bump/Remove, Protect/Unprotect/IsProtected "
@@ -35,12 +35,14 @@ SPEC = dict(
             "background-trim-closed", "forced-trim-closed-protected", "forcetrim-left-above-low-overall",
             "value-order-compared", "left-bound-checked", "overlapping-trims", "operations-overlapping-a-trim",
             "duplicate-connected", "duplicate-disconnected", "sync-delivery", "bump-applied", "decay-tick-applied", "decay-removed-with-nonzero-after",
-            "early-tag-entry-dropped", "order-dependent-overlap", "resync-after-order-dependent-overlap", "sampled-peer-check", "sampled-protect-check"],
+            "early-tag-entry-dropped", "order-dependent-overlap", "resync-after-order-dependent-overlap", "sampled-peer-check", "sampled-protect-check", "decay-applied-after-clock-jump",
+            "eligible-only-by-wall-time-after-clock-jump", "closed-peer-eligible-only-by-wall-time"],
     real=["p2p/net/connmgr (instrumented: sync->simsync, go->simrt.Go, select, map ranges): BasicConnMgr, decayer, background trim loop",
-          "benbjohnson/clock.New() on the synctest bubble clock"],
+          "benbjohnson/clock.New() on the synctest bubble clock, wrapped so that Now()/Since()/Until() add the clock-jump offset"],
     stubs=["network.Conn (records CloseWithError with stamps; Disconnected delivered later by another task, or synchronously)"],
     assume=["synctest fake clock and quiescence detection (Go 1.25.7)",
             "the overlay rewrite preserves behaviour (checked by ./check overlaytest C14)",
             "tags live as long as the manager tracks the peer; early-tag entries past the grace period may be dropped",
-            "ForceTrim is exempt from the grace period (its own documentation)"],
+            "ForceTrim is exempt from the grace period (its own documentation)",
+            "clock jumps are forward only; timers/tickers are monotonic (late by the jump), Now() is wall time"],
 )
